@@ -291,7 +291,7 @@ type tierCfg struct {
 	idx  int
 }
 
-func runHarness(ld *loaded, h *Harness, tier tierCfg, known []*sym.KnownFinding, seed int64, verbose bool) *sym.HarnessResult {
+func runHarness(ld *loaded, h *Harness, tier tierCfg, known []*sym.KnownFinding, seed int64, verbose bool, workers int) *sym.HarnessResult {
 	pkg := ld.pkgs[h.PkgDir]
 	fn := pkg.Func(h.Name)
 	if fn == nil {
@@ -304,11 +304,16 @@ func runHarness(ld *loaded, h *Harness, tier tierCfg, known []*sym.KnownFinding,
 	if h.Solver != "" {
 		order = strings.Split(h.Solver, ",")
 	}
-	solver := sym.NewSolver(order, time.Duration(h.QTimeout[tier.idx])*time.Second)
-	solver.Both = tier.idx == 1 && os.Getenv("VERIF_BOTH") != "0"
-	defer solver.Close()
+	if e := os.Getenv("VERIF_SOLVER"); e != "" {
+		order = strings.Split(e, ",")
+	}
+	newSolver := func() *sym.Solver {
+		s := sym.NewSolver(order, time.Duration(h.QTimeout[tier.idx])*time.Second)
+		s.Both = tier.idx == 1 && os.Getenv("VERIF_BOTH") != "0"
+		return s
+	}
 	ex := &sym.Explorer{
-		Prog: ld.prog, Solver: solver, IntMode: h.Encoding == "int", BigW: h.BigW,
+		Prog: ld.prog, NewSolver: newSolver, Workers: workers, IntMode: h.Encoding == "int", BigW: h.BigW,
 		MaxSteps: h.MaxSteps, MaxDecisions: h.MaxDec[tier.idx], MaxSymLen: 8, MaxPaths: h.MaxPaths[tier.idx],
 		Deadline: time.Now().Add(time.Duration(h.Timeout[tier.idx]) * time.Second),
 		MapOrder: h.MapOrder, Havoc: map[string]bool{}, RunInit: h.RunInit, Known: known, Verbose: verbose,
@@ -318,8 +323,6 @@ func runHarness(ld *loaded, h *Harness, tier tierCfg, known []*sym.KnownFinding,
 		ex.Havoc[hv] = true
 	}
 	res := ex.Run(fn)
-	res.SolverStats = solver.Stats
-	res.Disagree = solver.Disagree
 	for _, tag := range h.Expect {
 		if !res.Reached[tag] {
 			res.Vacuous = append(res.Vacuous, tag)
@@ -386,6 +389,7 @@ func cmdRun(args []string) int {
 	fs := flag.NewFlagSet("run", flag.ExitOnError)
 	tier := fs.String("tier", "quick", "")
 	verbose := fs.Bool("v", false, "")
+	workersF := fs.Int("w", 8, "")
 	if len(args) < 1 {
 		return 2
 	}
@@ -409,7 +413,7 @@ func cmdRun(args []string) int {
 		if !re.MatchString(h.Name) {
 			continue
 		}
-		res := runHarness(ld, h, tierOf(*tier), known, 0, *verbose)
+		res := runHarness(ld, h, tierOf(*tier), known, 0, *verbose, *workersF)
 		printResult(res, true)
 	}
 	return 0
@@ -508,7 +512,7 @@ func cmdCheck(args []string) int {
 	}
 	n := *jobs
 	if n <= 0 {
-		n = 8
+		n = 4
 	}
 	results := make([]*sym.HarnessResult, len(hs))
 	var wg sync.WaitGroup
@@ -519,7 +523,7 @@ func cmdCheck(args []string) int {
 			defer wg.Done()
 			sem <- struct{}{}
 			defer func() { <-sem }()
-			results[i] = runHarness(ld, h, tier, known, seed, *verbose)
+			results[i] = runHarness(ld, h, tier, known, seed, *verbose, 4)
 		}(i, h)
 	}
 	wg.Wait()
